@@ -397,6 +397,18 @@ fn output_predicate_datavalue(
     }
 }
 
+/// Appends a serialised subselector to a comma separated list. A subselector that was
+/// skipped (empty output) leaves no separator behind.
+fn push_item(out: &mut String, first: &mut bool, item: &str) {
+    if !item.is_empty() {
+        if !*first {
+            out.push(',');
+        }
+        *first = false;
+        out.push_str(item);
+    }
+}
+
 fn output_selector(
     selector: &Selector,
     store: &AnnotationStore,
@@ -484,40 +496,37 @@ fn output_selector(
         }
         Selector::CompositeSelector(selectors) => {
             ann_out += "{ \"type\": \"http://www.w3.org/ns/oa#Composite\", \"items\": [";
-            for (i, selector) in selectors.iter().enumerate() {
-                ann_out += &format!(
-                    "{}",
-                    &output_selector(selector, store, config, true, need_second_pass, second_pass)
+            let mut first = true;
+            for selector in selectors.iter() {
+                push_item(
+                    &mut ann_out,
+                    &mut first,
+                    &output_selector(selector, store, config, true, need_second_pass, second_pass),
                 );
-                if i != selectors.len() - 1 {
-                    ann_out += ",";
-                }
             }
             ann_out += " ]}";
         }
         Selector::MultiSelector(selectors) => {
             ann_out += "{ \"type\": \"http://www.w3.org/ns/oa#Independents\", \"items\": [";
-            for (i, selector) in selectors.iter().enumerate() {
-                ann_out += &format!(
-                    "{}",
-                    &output_selector(selector, store, config, true, need_second_pass, second_pass)
+            let mut first = true;
+            for selector in selectors.iter() {
+                push_item(
+                    &mut ann_out,
+                    &mut first,
+                    &output_selector(selector, store, config, true, need_second_pass, second_pass),
                 );
-                if i != selectors.len() - 1 {
-                    ann_out += ",";
-                }
             }
             ann_out += " ]}";
         }
         Selector::DirectionalSelector(selectors) => {
             ann_out += "{ \"type\": \"http://www.w3.org/ns/oa#List\", \"items\": [";
-            for (i, selector) in selectors.iter().enumerate() {
-                ann_out += &format!(
-                    "{}",
-                    &output_selector(selector, store, config, true, need_second_pass, second_pass)
+            let mut first = true;
+            for selector in selectors.iter() {
+                push_item(
+                    &mut ann_out,
+                    &mut first,
+                    &output_selector(selector, store, config, true, need_second_pass, second_pass),
                 );
-                if i != selectors.len() - 1 {
-                    ann_out += ",";
-                }
             }
             ann_out += " ]}";
         }
@@ -531,21 +540,20 @@ fn output_selector(
         Selector::RangedTextSelector { .. } | Selector::RangedAnnotationSelector { .. } => {
             if nested {
                 let subselectors: Vec<_> = selector.iter(store, false).collect();
-                for (i, subselector) in subselectors.iter().enumerate() {
-                    ann_out += &format!(
-                        "{}",
+                let mut first = true;
+                for subselector in subselectors.iter() {
+                    push_item(
+                        &mut ann_out,
+                        &mut first,
                         &output_selector(
                             &subselector,
                             store,
                             config,
                             true,
                             need_second_pass,
-                            second_pass
-                        )
+                            second_pass,
+                        ),
                     );
-                    if i != subselectors.len() - 1 {
-                        ann_out += ",";
-                    }
                 }
             } else {
                 unreachable!(
